@@ -132,7 +132,12 @@ class YAMLSpecification(Specification):
             )
             spec = yaml.load(stream)
 
-        logger.debug("Loaded specification -- \n%s", spec["description"])
+        if not isinstance(spec, dict):
+            raise jsonschema.ValidationError(
+                "A study specification must be a mapping at its top level."
+            )
+
+        logger.debug("Loaded specification -- \n%s", spec.get("description"))
         specification = cls()
         specification.path = None
         specification.description = spec.pop("description", {})
